@@ -12,6 +12,7 @@ def main() -> int:
     parser.add_argument("envelope", type=Path, help="envelope file")
     parser.add_argument("-ks", "--keystore", type=Path, required=True, help="keystore file")
     parser.add_argument("-o", "--output", type=Path, required=True, help="output file")
+    parser.add_argument("-a", "--aad", help="associated data the envelope was sealed with (e.g. ESXConfiguration)")
     args = parser.parse_args()
 
     if not args.envelope.exists() or not args.keystore.exists():
@@ -22,7 +23,7 @@ def main() -> int:
         keystore = KeyStore.from_text(args.keystore.read_text())
 
         with args.output.open("wb") as fhout:
-            fhout.write(envelope.decrypt(keystore.key))
+            fhout.write(envelope.decrypt(keystore.key, aad=args.aad.encode() if args.aad else None))
 
     return 0
 
